@@ -119,7 +119,7 @@ PROPS = {
     ),
 
     'C18': dict(
-        standin_ops=['xmlchar.is_char', 'xmlchar.is_name_start_char', 'xmlchar.is_name_char', 'xmlchar.is_pubid_char', 'xmlchar.is_enc_name'],
+        standin_ops=['xmlchar.is_char', 'xmlchar.is_name_start_char', 'xmlchar.is_name_char', 'xmlchar.is_pubid_char', 'xmlchar.is_enc_name', 'xmlchar.is_char_except', 'xmlchar.is_name_char_except', 'xmlchar.is_pubid_char_except'],
         verus_units=['c18_xmlchar'],
         kani=['c18'],
         level='proof',
